@@ -316,6 +316,9 @@ def make_history(timeout):
         ]
         ch = Chooser((c0, c1, c2, c3))
         with NoTracing():
+            from vlib import caches
+
+            caches.clear_all()  # also restores module-level tables: every path starts from the import-time state
             for _ in range(2):
                 try:
                     triggers[ch.pick(len(triggers))]()
